@@ -412,6 +412,12 @@ func parseRange(s string, size int64) ([]httpRange, error) {
 			if i < 0 || err != nil {
 				return nil, errors.New("invalid range")
 			}
+			if i == 0 || size == 0 {
+				// RFC 9110 14.1.2: a suffix-length of zero, or a suffix of an
+				// empty representation, selects no bytes and is unsatisfiable.
+				noOverlap = true
+				continue
+			}
 			if i > size {
 				i = size
 			}
